@@ -953,6 +953,13 @@ func (e *Engine) loopEnter(s *State, fn *ssa.Function, l *loop) {
 	itv := e.declare(s, "iter", "Int")
 	s.assume(app(">=", itv, "0"))
 	s.Ghost[iterKey] = itv
+	// implicit frame invariant: what the contract's modifies clause does not name keeps, for every object
+	// that existed when the loop was entered, the value it had then (checked again at the back edge)
+	if gs := e.loopFrame(s, fn, l); len(gs) > 0 {
+		for _, g := range gs {
+			s.add("(assert " + g + ")")
+		}
+	}
 	for _, inv := range invs {
 		cx := e.specCtx(s, fn)
 		cx.LoopSnap = s.LoopHeap[l.header]
@@ -984,6 +991,9 @@ func (e *Engine) loopBack(s *State, fn *ssa.Function, l *loop) {
 	iterKey := fmt.Sprintf("iter%d", l.ordinal)
 	if cur, ok := s.Ghost[iterKey]; ok {
 		s.Ghost[iterKey] = app("+", cur, "1")
+	}
+	if gs := e.loopFrame(s, fn, l); len(gs) > 0 {
+		e.assert(s, e.loopName(s, l, "frame", 0), "frame", pos, "the loop body changes only what the modifies clause names (objects existing at loop entry)", and(gs...))
 	}
 	for k, inv := range e.loopInvs(c, l.ordinal) {
 		cx := e.specCtx(s, fn)
@@ -1307,4 +1317,35 @@ func (e *Engine) loopInvs(c *Contract, k int) []Clause {
 		invs = append(append([]Clause{}, invs...), c.LoopInvExcl[k]...)
 	}
 	return invs
+}
+
+// loopFrame builds the implicit frame invariant of loop l for the top-level function under a contract
+// with a proper modifies clause.
+func (e *Engine) loopFrame(s *State, fn *ssa.Function, l *loop) []string {
+	if s.top().Depth != 0 || e.Contract == nil || e.Contract.Flag("noframe") {
+		return nil
+	}
+	for _, m := range e.Contract.Modifies {
+		if m == "*" {
+			return nil
+		}
+	}
+	snap := s.LoopHeap[l.header]
+	if snap == nil {
+		return nil
+	}
+	// only objects that existed when the function was entered: what the function allocated itself is
+	// its own business (explicit invariants speak about it)
+	alloc := "H0!Alloc"
+	if !s.Decl[alloc] {
+		return nil
+	}
+	ctx := e.specCtx(s, fn)
+	excs := e.frameExceptions(s, ctx)
+	var names []string
+	for name := range snap {
+		names = append(names, name)
+	}
+	sort.Strings(names)
+	return e.frameFormula(s, names, s.Heap, snap, alloc, excs)
 }
